@@ -61,6 +61,15 @@ func (l *IPFSLog) RawHeads() iface.IPFSLogOrderedEntries {
 	return heads
 }
 
+// headsAndEntries returns the heads and a copy of the entries of the log as
+// they were at one instant.
+func (l *IPFSLog) headsAndEntries() (iface.IPFSLogOrderedEntries, iface.IPFSLogOrderedEntries) {
+	l.lock.RLock()
+	defer l.lock.RUnlock()
+
+	return l.heads, l.Entries.Copy()
+}
+
 func (l *IPFSLog) IO() IO {
 	return l.io
 }
@@ -531,9 +540,15 @@ func (l *IPFSLog) Join(otherLog iface.IPFSLog, size int) (iface.IPFSLog, error) 
 	// Read the other log before taking our own lock, so that two logs joining
 	// each other concurrently never wait for each other's lock. Heads are read
 	// once and before the entries: the entries of an append-only log read later
-	// always contain the history of heads read earlier.
-	otherHeads := otherLog.RawHeads()
-	otherEntries := otherLog.GetEntries()
+	// always contain the history of heads read earlier. A size-bounded Join into
+	// the other log drops entries though, so our own logs are read in one go.
+	var otherHeads, otherEntries iface.IPFSLogOrderedEntries
+	if other, ok := otherLog.(*IPFSLog); ok {
+		otherHeads, otherEntries = other.headsAndEntries()
+	} else {
+		otherHeads = otherLog.RawHeads()
+		otherEntries = otherLog.GetEntries()
+	}
 
 	l.lock.Lock()
 	defer l.lock.Unlock()
